@@ -282,6 +282,17 @@ def tmax_default_case():
         v = api.real("tm")
         sc.t_max = v
         api.check("C09/RDScript.t_max/explicit", api.eq(sc.t_max.value, v))
+        # requested times stated in their own units (a UnitArray keeps them): the default end time is the same physical
+        # time as the last requested one
+        U = api.mod("units")
+        tus = M_.mk_system(api, "tus")
+        ta = U.UnitArray(ts, U.Units(tus, U.time_units_dimensions()))
+        sc2 = S.RDScript(R.RDSystem(net), ta, units_system=us)
+        out2 = api.call(lambda: sc2.t_max)
+        api.check("C09/RDScript.t_max/default-ok (times with own units)", out2.ok, "raised %r" % (out2.exc,))
+        if out2.ok:
+            api.check("C09/RDScript.t_max/default-is-the-last-requested-time-as-a-physical-quantity",
+                      api.eq(Q.si(api, out2.value), M_.si_number(api, api.arr_get(ts, n - 1), tus, M_.dims_of("time"))))
     return Case("python/RDScript.t_max", run, functions=["RDScript.t_max (getter, setter)"])
 
 
